@@ -408,6 +408,20 @@ pub fn gen_pe_func(p: &mut Prng, begin: u32, n_calls: usize, is_root: bool) -> P
     let _ = saved;
     // body with calls
     let mut calls = Vec::new();
+    // long functions: the body (and with it every call's return address and the epilog) lies
+    // beyond offset 256 / 512 / 768, with an instruction boundary at every byte around the
+    // multiple of 256 - offsets whose low byte is smaller than the prolog's code offsets
+    if !leaf && p.chance(1, 3) {
+        let target = 256 * (1 + p.below(3) as usize);
+        let cur = |insns: &Vec<PeInsn>| insns.iter().map(|i| i.bytes.len()).sum::<usize>();
+        insns.push(ins(&[0x90], PeEff::None));
+        while cur(&insns) + 9 <= target - 4 {
+            insns.push(ins(&[0x66, 0x0f, 0x1f, 0x84, 0x00, 0x00, 0x00, 0x00, 0x00], PeEff::None));
+        }
+        while cur(&insns) < target + 30 {
+            insns.push(ins(&[0x90], PeEff::None));
+        }
+    }
     let n_body = 2 + p.below(3) as usize;
     for i in 0..n_body.max(n_calls) {
         let b: Vec<u8> = p.pick(&[vec![0x90u8], vec![0x48, 0x89, 0xc3], vec![0x31, 0xc0]]).clone();
